@@ -14,6 +14,7 @@ open Qec Qec.Wire Qec.Mps
   <mps>  : sites joined by ';' , a site is 'N' or 'n,e,s,w' ; '_' = empty list
   <orc>  : entries joined by ';' : Q<rat> | S<rat>,<rat>,… | L<rat> ; '_' = empty
   <trace>: steps joined by ';' : row:Q|S:rows:cols:kept|Z ; '_' = empty
+           (Z = the step raised the zero flag: |R|_F = 0, σ₀ = 0, or — SVD with tol on — no σ/σ₀ exceeds tol)
 -/
 
 namespace C12
